@@ -126,6 +126,12 @@ void carquet_rle_decoder_init(
     dec->data = data;
     dec->size = size;
     dec->bit_width = bit_width;
+    if (bit_width < 0 || bit_width > 32) {
+        /* values are 32-bit: a wider run value or group would be shifted past
+         * the accumulator; the decoder delivers nothing */
+        dec->status = CARQUET_ERROR_INVALID_RLE;
+        return;
+    }
     dec->value_mask = bit_width >= 32 ? ~0U : (1U << bit_width) - 1;
     dec->status = CARQUET_OK;
 }
@@ -470,6 +476,9 @@ int64_t carquet_rle_decode_levels(
 
     if (max_values <= 0 || input_size == 0) {
         return 0;
+    }
+    if (bit_width < 0 || bit_width > 32) {
+        return 0;  /* as carquet_rle_decoder_init: no values at an invalid width */
     }
 
     /* Fast path: decode directly without per-value function calls */
